@@ -40,6 +40,10 @@ ASSUMPTIONS = [
     "strengths are rationals in [0,1]; float weights agree with the exact ones on the `> 0` filter and np.isclose checks",
 ]
 
+def _g(fn):
+    return du.guarded(fn)
+
+
 STRENGTHS = [Fr(0), Fr(1, 100), Fr(1, 10), Fr(1, 3), Fr(1, 2), Fr(1)]
 ONEQ = ["h", "s", "sdg", "x", "y", "z", "identity"]
 KIND_OF_CLASS = {
@@ -655,6 +659,7 @@ def wop_token(op):
     return f"{kind}:{op.reg_type}"
 
 
+@_g
 def check_assign(res, drv, spec, m):
     """`_noisy_gates(map)` of the implementation against the model's `noisyGate`, operation by operation"""
     circ, _ = build(spec, clean=True)
@@ -696,6 +701,7 @@ def check_assign(res, drv, spec, m):
     return real
 
 
+@_g
 def check_unwrap_identify(res, drv, rng):
     """`OneQubitGateWrapper.unwrap()` with a noise list and `SolverBase._identify_noise` / `_wrap_noise` against the model"""
     import graphiq.circuit.ops as ops
@@ -780,6 +786,7 @@ def malformed_specs(rng):
     return out
 
 
+@_g
 def check_malformed(res, drv, spec):
     """error class and trace only (these inputs are outside the property's quantifier)"""
     for be in ("dm", "stab"):
@@ -793,6 +800,7 @@ def check_malformed(res, drv, spec):
             res.exact_break(f"noise.run[{be}]:malformed-error-class", input=dict(spec=repr(spec)), impl=got + " " + im.get("exc", ""), model=rep["_raw"][:300])
 
 
+@_g
 def infidelity_check(res, spec, det, rng):
     """observe point `Infidelity.evaluate on both`: for a loss-free noisy circuit, a random pure stabilizer target gives the same value
     through the mixture (sum_k p_k F(T, T_k)) and through the density matrix (tr(rho sigma)); both equal the independent numpy value"""
